@@ -11,6 +11,7 @@ import math
 from fractions import Fraction as F
 
 FMAX = 1.7976931348623157e308
+PAIR_CANCEL_MAX = 10 ** 4  # largest accepted ratio (var_i + var_j + 2|cov_ij|) / (var_i + var_j - 2 cov_ij)
 
 
 # ----------------------------------------------------------------------------- exact linear algebra
@@ -234,6 +235,12 @@ def family(cov, values):
             if i == j or r <= 0:
                 pt[i][j] = 'undefined'
                 pp[i][j] = 'undefined'
+            elif var[i] + var[j] + 2 * abs(cov[i][j]) > PAIR_CANCEL_MAX * r:
+                # var(i) + var(j) - 2 cov(i,j) is a near cancellation: evaluated in floating point from entries
+                # that carry a few ulp each, its relative error is that many ulp times the ratio - the pairwise
+                # test is ill-conditioned (not comparable at 1e-10), excluded and counted by the driver
+                pt[i][j] = 'ill-conditioned'
+                pp[i][j] = 'ill-conditioned'
             else:
                 pt[i][j] = (values[i] - values[j]) / math.sqrt(float(r))
                 pp[i][j] = p_value(pt[i][j])
